@@ -94,6 +94,8 @@ def columnfile_case(run, seed, idx, columnfile, parameters):
     for k in range(int(r.integers(0, 5))):
         nm = "par%d" % k
         hdr[nm] = [int(r.integers(-1000, 1000)), float(r.normal()) * 10 ** int(r.integers(-8, 8)), "str%d" % k][k % 3]
+        if k % 3 == 0 and r.random() < 0.3:
+            hdr[nm] = int(r.choice([1, -1])) * (2 ** int(r.integers(53, 63)) + 2 * int(r.integers(1, 1000)) + 1)
     ncycles = int([1, 1, 2, 5][idx % 4])
     desc = dict(index=idx, kind="columnfile", titles=titles, nrows=n, cycles=ncycles, header=hdr)
     run.case(("columnfile", tuple(titles), n, ncycles), nontrivial=(len(set(tcls.values())) >= 2 or ncycles >= 2),
@@ -227,6 +229,10 @@ def parameters_case(run, seed, idx, parameters):
         nm = "p%d_%s" % (k, "abcxyz"[k % 6])
         if c == "int":
             v = int(r.integers(-10 ** 12, 10 ** 12))
+            if r.random() < 0.3:
+                # integers that a double cannot hold (time stamps in ns, 64-bit ids): they are ints and must stay exact
+                v = int(r.choice([1, -1])) * (2 ** int(r.integers(53, 63)) + int(r.integers(1, 1000)) * 2 + 1)
+                run.count("parameter_ints_beyond_2^53")
         elif c == "float":
             v = float(r.normal() * 10.0 ** int(r.integers(-300, 300)))
         elif c == "str":
@@ -476,4 +482,5 @@ def check(run, replay=None):
     run.require_counter("text_roundtrips", 50)
     run.require_counter("hdf_roundtrips", 50)
     run.require_counter("parameter_values_checked", 200)
+    run.require_counter("parameter_ints_beyond_2^53", 5)
     run.require_counter("grain_text_roundtrips", 30)
